@@ -109,21 +109,13 @@ where
             rows.sort_by(|a, b| {
                 let mut ret = Ordering::Equal;
                 for (order, rev) in q.order_by() {
-                    if *rev {
-                        ret = ret.then(
-                            b.get(order)
-                                .unwrap()
-                                .to_string()
-                                .cmp(&a.get(order).unwrap().to_string()),
-                        );
-                    } else {
-                        ret = ret.then(
-                            a.get(order)
-                                .unwrap()
-                                .to_string()
-                                .cmp(&b.get(order).unwrap().to_string()),
-                        );
-                    }
+                    let (l, r) = if *rev { (b, a) } else { (a, b) };
+                    let (l, r) = (l.get(order).unwrap(), r.get(order).unwrap());
+                    ret = ret.then(match (l.as_f64(), r.as_f64()) {
+                        // numbers are ordered by value, not by text
+                        (Some(l), Some(r)) => l.partial_cmp(&r).unwrap_or(Ordering::Equal),
+                        _ => l.to_string().cmp(&r.to_string()),
+                    });
                 }
 
                 ret
